@@ -149,6 +149,11 @@ func TestVerifC04E2E(t *testing.T) {
 			rec.Class("killed-in-mid-transfer")
 		}
 		if status != 0 {
+			if joinNeverStarted(jlog) {
+				rec.Class("not-run-join-never-reached-the-session")
+				rec.Note("final join printed nothing but its banner (status %d): %s", status, desc)
+				return
+			}
 			sig := "e2e:final-resume-failed"
 			if status == -1 {
 				sig = "e2e:final-resume-did-not-finish"
